@@ -12,15 +12,17 @@ import common as C
 PID = "C02"
 DRIVER = [("C02", "TfPwaV.Model.Align", "Align.handle"), ("C02a", "TfPwaV.Gen.AlignF", "AlignF.handle"),
           ("C02w", "TfPwaV.Gen.SL2CF", "SL2CF.handle"), ("C02r", "TfPwaV.Gen.RouteRestF", "RouteRestF.handle")]
-LEAN_TARGETS = ["TfPwaV.Props.C02", "TfPwaV.Props.C02b", "TfPwaV.Props.C02c", "TfPwaV.Props.C02d", "TfPwaV.Props.C02e", "TfPwaV.Gen.AlignF",
+LEAN_TARGETS = ["TfPwaV.Props.C02", "TfPwaV.Props.C02b", "TfPwaV.Props.C02c", "TfPwaV.Props.C02d", "TfPwaV.Props.C02e", "TfPwaV.Props.C02f", "TfPwaV.Gen.AlignF",
                 "TfPwaV.Gen.SU2F", "TfPwaV.Gen.SL2CF", "TfPwaV.Gen.RouteRestF"]
-PROP_MODULES = ["TfPwaV.Props.C02", "TfPwaV.Props.C02b", "TfPwaV.Props.C02c", "TfPwaV.Props.C02d", "TfPwaV.Props.C02e"]
+PROP_MODULES = ["TfPwaV.Props.C02", "TfPwaV.Props.C02b", "TfPwaV.Props.C02c", "TfPwaV.Props.C02d", "TfPwaV.Props.C02e", "TfPwaV.Props.C02f"]
 ALL_MODULES = ["TfPwaV.Model.Align", "TfPwaV.Proofs.Align", "TfPwaV.Proofs.AlignD", "TfPwaV.Proofs.SU2", "TfPwaV.Proofs.UnitaryMix",
                "TfPwaV.Props.C02", "TfPwaV.Props.C02b", "TfPwaV.Props.C02c", "TfPwaV.Props.C02d", "TfPwaV.Proofs.SL2C", "TfPwaV.Proofs.Kin",
                "TfPwaV.Props.C02e", "TfPwaV.Proofs.RouteRest", "TfPwaV.Proofs.RouteRestTree", "TfPwaV.Proofs.CascadeTree", "TfPwaV.Proofs.Cascade",
                "TfPwaV.Proofs.CascadeAngle", "TfPwaV.Proofs.Angle", "TfPwaV.Props.C11", "TfPwaV.Props.C11c",
                "TfPwaV.Props.C12b", "TfPwaV.Props.C12d",
-               "TfPwaV.Props.C01", "TfPwaV.Props.C01b", "TfPwaV.Proofs.FrameAlg", "TfPwaV.Proofs.DHom", "TfPwaV.Proofs.ZHom"]
+               "TfPwaV.Props.C01", "TfPwaV.Props.C01b", "TfPwaV.Proofs.FrameAlg", "TfPwaV.Proofs.DHom", "TfPwaV.Proofs.ZHom",
+               "TfPwaV.Props.C02f", "TfPwaV.Props.C01i", "TfPwaV.Proofs.AxesIndBD", "TfPwaV.Proofs.AxesIndBGauge", "TfPwaV.Proofs.AxesIndBMkD",
+               "TfPwaV.Proofs.AxesIndBRoute", "TfPwaV.Proofs.AmpMix", "TfPwaV.Proofs.Amp"]
 ASSUMPTIONS = [
     "kinematic hypothesis, DISCHARGED (Props/C02e.lean): `RouteToRest` of Props/C02d.lean (the Lorentz transformation composed from the (alpha_i, beta_i, omega_i) of a route brings the particle's top-frame momentum to rest) is now PROVED (route_to_rest_of_cascade) for every event (any binary decay tree, any final four-momenta, any input frame, any base axes), for every decay path, from the model of the code that produces those numbers: templates/Cascade.lean.in (infer_momentum, add_mass, cal_chain_boost = nested LorentzVector.rest_vector, the axis propagation set_z[j] = vect(rest_p[j]), set_x[j] = x2 of angle_zx_z_getx, the alpha range shift) + templates/RouteRest.lean.in (stepTree: the (alpha, beta, omega = LorentzVector.omega(rest_p[j])) cal_helicity_angle records for both daughters of every decay; topCoords: the frame all chains start from; rule2Step: the angles of aligned_angle_ref_rule2). Hypotheses = the code's own guards along the chain (`Guards`, `TopOK`): every helicity-frame momentum has positive energy and is time-like (massive particles; LorentzVector.gamma resets beta^2 >= 1 otherwise), no cross_unit call is in its degenerate branch (norm < 1e-14), every DECAYING daughter is in the regular branch of LorentzVector.boost (beta^2 > 1e-14); the excluded branches are not covered by a theorem. What ties this model to the code is a correspondence, not a proof: on every run the Float instance of the same text computes, from the final momenta alone, the steps of every decay path of every captured chain and they are compared with the angles cal_helicity_angle stored and the rapidity read off b_matrix (1e-6; observed 1e-14), topCoords with an independent numpy oracle, rule2R(rule2Step) with the captured rule-2 r_matrix; the older run-time check of RouteToRest on the captured matrices ((b_matrix*r_matrix) herm(q) (..)^dagger = m*1, observed 2e-15) is kept and now validates the tie model <-> code rather than a hypothesis",
     "3-body vertices (angle_zx_zzz_getx) are outside the cascade/route model (chains containing one are counted as skipped by the model correspondence; the captured-matrix check still covers them); the non-vacuity witnesses of Guards/ChainOf in Props/C02e.lean are a depth-1 event (A -> a b at rest) and a depth-2 event (A -> R c, R -> a b with R in flight, beta = 3/5; route of two vertices); deeper chains are seen on the real events of every run (model residual routeL(steps)(q) = (m,0,0,0) to 2e-15 on routes of depth 2 and 3)",
@@ -30,6 +32,7 @@ ASSUMPTIONS = [
     "random_z / center_mass: route_to_rest_of_cascade holds for arbitrary base axes and arbitrary input events, so each setting separately has rotation-valued alignment elements (route_to_rest_random_z, route_to_rest_center_mass); that the DENSITY is the same ACROSS these settings (a common rotation / the first pure boost of the whole event) is validated by the search only; it is an instance of C01 frame covariance",
     "density comparison tolerance 1e-6*(max(d1,d2)+mean(d)): SU2M.get_euler_angle takes beta = acos(Re(x00 x11 + x01 x10)), whose forward error at beta -> 0 is sqrt(2 ulp) ~ 2e-8 (observed density differences up to 1.3e-8 between equivalent configurations on the unchanged tree, median 1e-10); any O(1) convention error is > 1e-3 on most events",
     "matrix correspondence tolerance 1e-9 relative to the largest entry (products of at most 12 complex 2x2 factors with entries up to exp(omega/2))",
+    "Props/C02f.lean (opposite daughter order inside one topology): the stored angles of the two orientations of a two-body vertex are DEFINITIONS of the model (orientO1: first-listed (alpha, beta), second-listed (alpha - pi, pi - beta); orientO2 with the flag s = (alpha_b < 0), forced by the ranges: orientation_flag_of_ranges) - that cal_helicity_angle stores exactly these numbers, that every helicity angle below the vertex is the same number in both orientations, and that no alignment D-function is inserted between chains of one topology, is validated on every run on the real cal_angle (harness/c02_orient.py: 1e-11 on the angles), not proved from the atan2 model; the theorems take the relation between SU(2) ELEMENTS (central sign on the top-vertex element and on the alignment elements) as hypotheses, proved for the stored angles by exactly_one_sheet_changes / route_first_step_sheet / align_sheet; spins 2j <= 8 (table tie of C12); fermion-number conservation (2 J_A + sum of 2 j_f even) is a hypothesis of opposite_orientation_factor / _pair_factor (it holds for every decay card with non-empty LS lists); the prediction is compared with the per-chain tensors of the real DecayGroup.get_amp for both declaration orders (1e-12 relative to the largest component, observed 2e-15), with and without a chain of another topology; chain_order_dependence_witness uses constant model D-functions (the index algebra), the witness on real D-functions is the listed reproducer run by the search",
 ]
 
 DEFAULT_OPTS = {"align_ref": None, "random_z": True, "center_mass": False, "only_left_angle": False, "r_boost": True}
@@ -37,6 +40,7 @@ KEY_CM_FRAME = "align_ref:center_mass:parent-not-at-rest"
 KEY_LEFT_MIXED = "only_left_angle:mixed-daughter-order:raises:KeyError"
 KEY_BWL = "chain-order:bw_l-default-from-first-declared-decay"
 KEY_MIXED_FERMION = "chain-order:one-topology-opposite-daughter-order:half-integer-spin"
+KEY_MIXED_FERMION_DAUGHTER = "chain-order:one-topology-opposite-daughter-order:fermion-daughters:other-topology"
 RTOL = 1e-6
 
 
@@ -96,6 +100,18 @@ def zoo():
             "$finals": {"B": {"J": 0.5, "P": 1, "mass": 0.938272}, "C": {"J": 0, "P": -1, "mass": 0.493677}, "D": {"J": 0, "P": -1, "mass": 3.0969}},
             "R1": {"J": 0.5, "P": -1, "mass": 1.8, "width": 0.2},
             "R2": {"J": 0.5, "P": -1, "mass": 2.1, "width": 0.3},
+        }}))
+    # second class of the same defect (Props/C02f.lean, opposite_orientation_factor): integer-spin mother, two fermion daughters,
+    # a chain of another topology interferes: the chain that is not the first declared one of its topology carries (-1)^(2 j_second)
+    out.append(("3body-mixed-order-fermion-daughters", {
+        "data": {"dat_order": ["B", "C", "D"]},
+        "decay": {"A": [["R3", "C"], ["R1", "D"], ["D", "R2"]], "R1": ["B", "C"], "R2": ["B", "C"], "R3": ["B", "D"]},
+        "particle": {
+            "$top": {"A": {"J": 1, "P": 1, "mass": 5.6196}},
+            "$finals": {"B": {"J": 0.5, "P": 1, "mass": 0.938272}, "C": {"J": 0, "P": -1, "mass": 0.493677}, "D": {"J": 0.5, "P": -1, "mass": 3.0969}},
+            "R1": {"J": 0.5, "P": -1, "mass": 1.8, "width": 0.2},
+            "R2": {"J": 0.5, "P": -1, "mass": 2.1, "width": 0.3},
+            "R3": {"J": 1, "P": -1, "mass": 4.3, "width": 0.3},
         }}))
     return out
 
@@ -353,6 +369,8 @@ def classify(cfg, opts, permuted, frame):
     changed = sorted(k for k, v in (opts or {}).items() if DEFAULT_OPTS.get(k) != v)
     if permuted and mixed_order_fermion(cfg):
         return KEY_MIXED_FERMION   # whatever the options: the declared order of the two oppositely written chains decides
+    if permuted and mixed_order_fermion(cfg, daughters=True):
+        return KEY_MIXED_FERMION_DAUGHTER   # Props/C02f.lean opposite_orientation_factor: (-1)^(2 j_second) against a third chain
     if opts and opts.get("align_ref") == "center_mass" and not opts.get("center_mass", False) and frame == "lab":
         return KEY_CM_FRAME
     if changed:
@@ -360,8 +378,9 @@ def classify(cfg, opts, permuted, frame):
     return "chain-order" if permuted else "identity"
 
 
-def mixed_order_fermion(cfg):
-    """two alternatives of ONE topology with the daughters in opposite order whose mother has half-integer spin"""
+def mixed_order_fermion(cfg, daughters=False):
+    """two alternatives of ONE topology with the daughters in opposite order whose mother has half-integer spin;
+    daughters=True: the mother has integer spin, the two daughters are fermions and there is a third alternative"""
     part = cfg["particle"]
 
     def spin(x):
@@ -370,13 +389,16 @@ def mixed_order_fermion(cfg):
                 return float(part[sec][x].get("J", 0))
         return float(part.get(x, {}).get("J", 0))
     for k in top_lists(cfg):
-        if (2 * spin(k)) % 2 != 1:
+        if (2 * spin(k)) % 2 != (0 if daughters else 1):
             continue
         alts = [[y for y in l if isinstance(y, str)] for l in cfg["decay"][k]]
         fin = lambda x: tuple(sorted(_finals_of(cfg, x)))  # noqa: E731
         for a_, b_ in itertools.combinations(alts, 2):
             if len(a_) == 2 and len(b_) == 2 and fin(a_[0]) == fin(b_[1]) and fin(a_[1]) == fin(b_[0]):
-                return True
+                if not daughters:
+                    return True
+                if (2 * spin(a_[0])) % 2 == 1 and len(alts) > 2:
+                    return True
     return False
 
 
@@ -1307,7 +1329,10 @@ def correspond(ctx, res):
     n += correspond_dhom(ctx, res)
     t3 = time.time()
     n += correspond_kinematic(ctx, res)
-    C.log("[C02] correspondence: rule1 %.1fs, matrices %.1fs, left+dhom %.1fs, kinematic %.1fs" % (t1 - t0, t2 - t1, t3 - t2, time.time() - t3))
+    t4 = time.time()
+    import c02_orient
+    n += c02_orient.run(ctx, res)
+    C.log("[C02] correspondence: rule1 %.1fs, matrices %.1fs, left+dhom %.1fs, kinematic %.1fs, orientation (C02f) %.1fs" % (t1 - t0, t2 - t1, t3 - t2, t4 - t3, time.time() - t4))
     res.coverage["traces_validated_against_impl"] = n
 
 
@@ -1342,7 +1367,7 @@ def replay(ctx, payload):
 
 
 MANIFEST = {
-    "text": "Lean theorems: (i) SU2M algebra over real pairs (imported from C12b: associativity, det multiplicative, inv two-sided for det 1, det of Rz/Ry/Bz = 1) extended to the bookkeeping of cal_angle: every r_matrix / b_matrix / rule-2 reference built by cal_helicity_angle has det 1 for every decay path of any depth; (ii) align_cocycle: for any two references the alignment elements satisfy R'_k = G R_k with one G for all chains k (and G = the alignment element of the old reference chain w.r.t. the new one); (iii) ref_choice_total: the modelled aligned_angle_ref_rule1 assigns to every final particle exactly one reference chain = first chain producing it from the top particle, else chain 0, for EVERY ordered chain list; reference chains never get an aligned angle, all others do; (iv) permutation invariance of the coherent sum for lists and convention_invariant (Props/C02c.lean): for every final-state spin 2j <= 8, with the code's own alignment matrix D_matrix_conj(get_euler_angle(R_k)) (anti-multiplicativity on SU(2) and unitarity proved from euler_roundtrip, D_hom_su2, D_conj_unitary), arbitrary spectator indices, one or two aligned particles with independent references, the helicity-summed density is the same for both references, given that the alignment elements are in SU(2); (v) NEW, Props/C02d.lean (spinor map, all real angles / rapidities / four-vectors): boostZ_acts, rotZ_acts, rotY_acts (what SU2M.Boost_z / Rotation_z / Rotation_y do to a four-vector: boost with velocity -tanh(omega) along z, azimuth - alpha, polar angle - beta), boost_sign_tie (Boost_z(omega) = LorentzVector.rest_vector of a momentum along +z, regular branch), omega_of_momentum (acosh(LorentzVector.gamma(p)) has m cosh = E, m sinh = |p|), helicity_vertex_to_rest, rest_stabiliser (det A = 1, A (m 1) A^dagger = m 1, m != 0 => A in SU(2); massless counterexample), two_routes_rotation, route_matches_code (b_matrix*r_matrix accumulated as r*b[core]*r[core] is the ordered product of the per-vertex matrices, any depth), route_acts (it acts as the composed per-vertex Lorentz transformation), changeRef_isSU2 / alignR_isSU2 (G and every R_k ARE rotations) and convention_invariant_routes / _two_routes / order_and_reference_invariant_routes / convention_invariant_rule2_routes: the density is the same for two reference chains, and for rule 1 vs rule 2 (align_ref = center_mass), WITHOUT any IsSU2 hypothesis, under the named kinematic hypothesis RouteToRest (each chain's route was built from the momentum it is applied to; implied by LastVertexTracks) and m != 0. (vi) NEW, Props/C02e.lean: RouteToRest is DISCHARGED from the cascade model (templates/Cascade.lean.in + templates/RouteRest.lean.in): route_step_tracks (one vertex, any mother frame with the un-normalised set_z, any four-vector passing the guards, any bias: the recorded (alpha, beta, omega) satisfy LastVertexTracks and Boost_z*Rotation_y*Rotation_z maps herm(coords r) to m*1), route_step_is_rest_vector (the recorded step IS rest_vector followed by the passage to the daughter's axes (set_x, set_z), for every four-vector: the frame bookkeeping over the levels), route_to_rest_of_cascade (structural induction over ANY binary decay tree, ANY decay path, any momenta, any base axes: RouteToRest (route of the path) (top-frame momentum) sqrt(q.q), and the mass is > 0), convention_invariant_event / _two_event / order_and_reference_invariant_event / convention_invariant_rule2_event (the C02d statements with hypotheses on the EVENT only: chains of one event = trees over the same total momentum and base axes passing the code's guards; rule 2 built from the modelled angles of aligned_angle_ref_rule2 via rule2_polar), route_to_rest_random_z, route_to_rest_center_mass.",
-    "note": "No named kinematic hypothesis is left: RouteToRest is proved from the cascade model under the code's guards (massive, non-degenerate cross_unit, regular boost branch). Validated, not proved: that the cascade model IS the code (correspondence on every run: the Float instance computes the (alpha, beta, omega) of every decay path from the final momenta alone and is compared with what cal_helicity_angle stored / b_matrix encodes, 1e-6, observed 1e-14; topCoords vs a numpy oracle; rule2R(rule2Step) vs the captured rule-2 reference), the guard branches themselves (near-degenerate configurations), 3-body vertices, and the equality of the density ACROSS random_z / center_mass settings (search). The older check of RouteToRest on captured matrices is kept as a tie model <-> code (on the matrices captured from the real cal_angle: (b*r) herm(q) (b*r)^dagger = m*1 per chain / final particle / event with q from an independent numpy oracle, routeL(alpha_i, beta_i, omega_i)(q) = (m,0,0,0), per-vertex product = captured b*r, unitarity of every element handed to get_euler_angle; 1e-9 relative to E*max|M_ij|^2, observed 2e-15). The discrete model is compared exactly with the real aligned_angle_ref_rule1 on seeded chain lists (real DecayChain objects, token payloads) and with the keys of the real cal_angle output; the Float instance of the matrix bookkeeping is compared with the matrices the real cal_angle builds on real events (captured at get_euler_angle). Search = the property itself: pairs of ConfigLoader instances from permuted chain lists / inner alternatives / decay-section key order and re-optioned data sections (align_ref, random_z, center_mass, only_left_angle), parameters by name, same p4 in the parent rest frame and in a boosted frame, rel 1e-6 (the implementation's own acos forward error is 2e-8).",
-    "technique": "Lean 4 proof (2x2 complex matrix algebra over real pairs, spinor map SL(2,C) -> Lorentz group, list induction, structural induction over decay trees with a frame/boost invariant, unitary mixing) + differential correspondence (incl. the kinematic hypothesis on captured matrices) + metamorphic search on the implementation",
+    "text": "Lean theorems: (i) SU2M algebra over real pairs (imported from C12b: associativity, det multiplicative, inv two-sided for det 1, det of Rz/Ry/Bz = 1) extended to the bookkeeping of cal_angle: every r_matrix / b_matrix / rule-2 reference built by cal_helicity_angle has det 1 for every decay path of any depth; (ii) align_cocycle: for any two references the alignment elements satisfy R'_k = G R_k with one G for all chains k (and G = the alignment element of the old reference chain w.r.t. the new one); (iii) ref_choice_total: the modelled aligned_angle_ref_rule1 assigns to every final particle exactly one reference chain = first chain producing it from the top particle, else chain 0, for EVERY ordered chain list; reference chains never get an aligned angle, all others do; (iv) permutation invariance of the coherent sum for lists and convention_invariant (Props/C02c.lean): for every final-state spin 2j <= 8, with the code's own alignment matrix D_matrix_conj(get_euler_angle(R_k)) (anti-multiplicativity on SU(2) and unitarity proved from euler_roundtrip, D_hom_su2, D_conj_unitary), arbitrary spectator indices, one or two aligned particles with independent references, the helicity-summed density is the same for both references, given that the alignment elements are in SU(2); (v) NEW, Props/C02d.lean (spinor map, all real angles / rapidities / four-vectors): boostZ_acts, rotZ_acts, rotY_acts (what SU2M.Boost_z / Rotation_z / Rotation_y do to a four-vector: boost with velocity -tanh(omega) along z, azimuth - alpha, polar angle - beta), boost_sign_tie (Boost_z(omega) = LorentzVector.rest_vector of a momentum along +z, regular branch), omega_of_momentum (acosh(LorentzVector.gamma(p)) has m cosh = E, m sinh = |p|), helicity_vertex_to_rest, rest_stabiliser (det A = 1, A (m 1) A^dagger = m 1, m != 0 => A in SU(2); massless counterexample), two_routes_rotation, route_matches_code (b_matrix*r_matrix accumulated as r*b[core]*r[core] is the ordered product of the per-vertex matrices, any depth), route_acts (it acts as the composed per-vertex Lorentz transformation), changeRef_isSU2 / alignR_isSU2 (G and every R_k ARE rotations) and convention_invariant_routes / _two_routes / order_and_reference_invariant_routes / convention_invariant_rule2_routes: the density is the same for two reference chains, and for rule 1 vs rule 2 (align_ref = center_mass), WITHOUT any IsSU2 hypothesis, under the named kinematic hypothesis RouteToRest (each chain's route was built from the momentum it is applied to; implied by LastVertexTracks) and m != 0. (vi) NEW, Props/C02e.lean: RouteToRest is DISCHARGED from the cascade model (templates/Cascade.lean.in + templates/RouteRest.lean.in): route_step_tracks (one vertex, any mother frame with the un-normalised set_z, any four-vector passing the guards, any bias: the recorded (alpha, beta, omega) satisfy LastVertexTracks and Boost_z*Rotation_y*Rotation_z maps herm(coords r) to m*1), route_step_is_rest_vector (the recorded step IS rest_vector followed by the passage to the daughter's axes (set_x, set_z), for every four-vector: the frame bookkeeping over the levels), route_to_rest_of_cascade (structural induction over ANY binary decay tree, ANY decay path, any momenta, any base axes: RouteToRest (route of the path) (top-frame momentum) sqrt(q.q), and the mass is > 0), convention_invariant_event / _two_event / order_and_reference_invariant_event / convention_invariant_rule2_event (the C02d statements with hypotheses on the EVENT only: chains of one event = trees over the same total momentum and base axes passing the code's guards; rule 2 built from the modelled angles of aligned_angle_ref_rule2 via rule2_polar), route_to_rest_random_z, route_to_rest_center_mass. (vii) NEW, Props/C02f.lean (the listed finding chain-order:one-topology-opposite-daughter-order as theorems; spins 2j <= 8, ALL events, ALL helicities, D-functions through the element-level statements of C01i): exactly_one_sheet_changes (between the data of a representative written (b, c) and one written (c, b) exactly one of the two daughters has its Rotation_z element multiplied by the central -1: s = (alpha_b < 0) decides which; orientation_flag_of_ranges), route_first_step_sheet / align_sheet (every route matrix through that daughter and every alignment element follow, any depth), mkD_sheet / top_D_orientation (get_D_matrix_lambda at an element times the central sign = (+-1)^(2j) times itself, padding zeros included), chain_amp_sheet_signs (ANY chain of the amplitude model templates/Amp.lean.in: central signs on the top-vertex element and on the alignment elements multiply every component of DecayChain.get_amp by the product of the (+-1)^(2j)), opposite_orientation_factor (a chain aligned to a reference outside the topology, read with the data of the opposite orientation: the CONSTANT (-1)^(sum of 2 j_f below its second-written daughter) = (-1)^(2 j_second), whatever the event flag, given fermion-number conservation), opposite_orientation_pair_factor (the constants of a (b, c) and a (c, b) chain multiply to (-1)^(2 J_A): the relative sign of two oppositely written chains changes by (-1)^(2 J_A) with the declaration order), other_topology_boundary (against a third chain both constants are +1 iff both daughters are bosons), density level for the chains of ONE topology: density_top_signs, one_topology_orientation_density (density from the O2 data = density from the O1 data with every oppositely written chain times (-1)^(2 J_A)), chain_order_invariant_integer_spin, chain_order_invariant_same_orientation (no dependence when J_A is an integer or all chains of the topology share the orientation: the exact boundary for a topology on its own), chain_order_dependence_witness (2 J_A = 1, two oppositely written chains, densities 16 vs 0 on the executable model over the reals, kernel-checked), declared_order_relative_sign.",
+    "note": "C02f: the finding stays LISTED (two keys: half-integer mother; integer mother with two fermion daughters + a chain of another topology, the latter found from opposite_orientation_factor and reproduced on the unchanged tree: harness/c02_known/C02-known-mixed_order_fermion_daughter_repro.py). harness/c02_orient.py compares, on the reproducer family (J_A in {1/2, 1, 3/2}, B/D fermion or boson, both declaration orders, inner orders equal/opposite, with and without a chain of another topology), the stored angles with orientO1/orientO2 and the per-chain tensors of the real DecayGroup.get_amp of the two declarations with the factor chain_amp_sheet_signs predicts per event (1e-12; observed 2e-15); it recognises the two repair proposals on the tree (canonical representative: identical data, all ratios 1; orientation_sign attribute: prediction times the constants) and reports the literal '(-1)^(2 J_A) for an oppositely written decay' variant as broken (pair factor not constant). Repair proposals (NOT applied): fixes/C02-fix_C02_canonical_orientation.diff (standard_topology sorts the two daughters), fixes/C02-fix_C02_orientation_sign.diff (a chain gets (-1)^(2 j_second) per decay written opposite to the representative; recommended), fixes/C02-rejected_fix_C02_sign_2JA.diff (does not repair). No named kinematic hypothesis is left: RouteToRest is proved from the cascade model under the code's guards (massive, non-degenerate cross_unit, regular boost branch). Validated, not proved: that the cascade model IS the code (correspondence on every run: the Float instance computes the (alpha, beta, omega) of every decay path from the final momenta alone and is compared with what cal_helicity_angle stored / b_matrix encodes, 1e-6, observed 1e-14; topCoords vs a numpy oracle; rule2R(rule2Step) vs the captured rule-2 reference), the guard branches themselves (near-degenerate configurations), 3-body vertices, and the equality of the density ACROSS random_z / center_mass settings (search). The older check of RouteToRest on captured matrices is kept as a tie model <-> code (on the matrices captured from the real cal_angle: (b*r) herm(q) (b*r)^dagger = m*1 per chain / final particle / event with q from an independent numpy oracle, routeL(alpha_i, beta_i, omega_i)(q) = (m,0,0,0), per-vertex product = captured b*r, unitarity of every element handed to get_euler_angle; 1e-9 relative to E*max|M_ij|^2, observed 2e-15). The discrete model is compared exactly with the real aligned_angle_ref_rule1 on seeded chain lists (real DecayChain objects, token payloads) and with the keys of the real cal_angle output; the Float instance of the matrix bookkeeping is compared with the matrices the real cal_angle builds on real events (captured at get_euler_angle). Search = the property itself: pairs of ConfigLoader instances from permuted chain lists / inner alternatives / decay-section key order and re-optioned data sections (align_ref, random_z, center_mass, only_left_angle), parameters by name, same p4 in the parent rest frame and in a boosted frame, rel 1e-6 (the implementation's own acos forward error is 2e-8).",
+    "technique": "Lean 4 proof (2x2 complex matrix algebra over real pairs, spinor map SL(2,C) -> Lorentz group, list induction, structural induction over decay trees with a frame/boost invariant, unitary mixing, central-sign gauge of the einsum of DecayChain.get_amp) + differential correspondence (incl. the kinematic hypothesis on captured matrices) + metamorphic search on the implementation",
 }
